@@ -46,7 +46,7 @@ def run(ctx):
     U = universe(w)
     fm = I.global_name("formulas", "formula")
     s_hill = fsite(ctx, "formulas.Formula.hill")
-    struct = lambda f: I.heap[f.id]["structure"]
+    struct = lambda f: I.getattr(f, "structure")
     ctx.unit("atoms_in_universe", len(U))
 
     # ---- R2 pairwise: the order of two distinct atoms never depends on insertion order ----
